@@ -573,8 +573,9 @@ def search_C09(seed):
     for k in range(12):
         key = rnd.choice(["v0", "v1"])
         if rnd.random() < 0.6:
-            xs = DictOps.add_to_stack_dict(xs, key, k)
-            model.setdefault(key, []).append(k)
+            obj = k if rnd.random() < 0.5 else rnd.randint(0, 2)      # equal values are pushed again (instructions compare by value)
+            xs = DictOps.add_to_stack_dict(xs, key, obj)
+            model.setdefault(key, []).append(obj)
         else:
             got, xs = DictOps.pop_from_stack_dict(xs, key)
             want = model.get(key, []).pop() if model.get(key) else None
